@@ -887,6 +887,85 @@ func (ta *mbTaintAn) flows(fd *ast.FuncDecl, seed map[types.Object]string, selfR
 		}
 		return ""
 	}
+	// kind refinement: inside a clause of `switch E.Kind()` (or a type switch on
+	// E) that lists only kinds whose value structs hold no reference, a copy of
+	// the interface value E is a copy of a reference-free struct: it shares
+	// nothing with the receiver
+	type scalarRegion struct {
+		lo, hi token.Pos
+		expr   string
+	}
+	var regions []scalarRegion
+	refFree := func(im *mbImpl) bool { return im != nil && !mbHasRefs(im.named, 0) }
+	implOfKind := map[string]*mbImpl{}
+	for _, im := range l.impls {
+		if im.kind != nil {
+			implOfKind[im.kind.Name()] = im
+		}
+	}
+	mbInspectNoLit(fd.Body, func(nd ast.Node) bool {
+		switch sw := nd.(type) {
+		case *ast.SwitchStmt:
+			call, ok := ast.Unparen(sw.Tag).(*ast.CallExpr)
+			if sw.Tag == nil || !ok || len(call.Args) != 0 {
+				return true
+			}
+			sel, ok := call.Fun.(*ast.SelectorExpr)
+			if !ok || sel.Sel.Name != "Kind" || !l.isValueIface(info.TypeOf(sel.X)) {
+				return true
+			}
+			for _, cl := range sw.Body.List {
+				cc := cl.(*ast.CaseClause)
+				all := len(cc.List) > 0
+				for _, v := range cc.List {
+					k := ConstOf(info, v)
+					if k == nil || !refFree(implOfKind[k.Name()]) {
+						all = false
+					}
+				}
+				if all {
+					regions = append(regions, scalarRegion{cc.Pos(), cc.End(), exprStr(ast.Unparen(sel.X))})
+				}
+			}
+		case *ast.TypeSwitchStmt:
+			var subj ast.Expr
+			switch a := sw.Assign.(type) {
+			case *ast.ExprStmt:
+				if ta, ok := ast.Unparen(a.X).(*ast.TypeAssertExpr); ok {
+					subj = ta.X
+				}
+			case *ast.AssignStmt:
+				if ta, ok := ast.Unparen(a.Rhs[0]).(*ast.TypeAssertExpr); ok {
+					subj = ta.X
+				}
+			}
+			if subj == nil || !l.isValueIface(info.TypeOf(subj)) {
+				return true
+			}
+			for _, cl := range sw.Body.List {
+				cc := cl.(*ast.CaseClause)
+				all := len(cc.List) > 0
+				for _, v := range cc.List {
+					if !refFree(l.implOfType(info.TypeOf(v))) {
+						all = false
+					}
+				}
+				if all {
+					regions = append(regions, scalarRegion{cc.Pos(), cc.End(), exprStr(ast.Unparen(subj))})
+				}
+			}
+		}
+		return true
+	})
+	refinedScalar := func(at token.Pos, e ast.Expr) bool {
+		es := exprStr(ast.Unparen(e))
+		for _, r := range regions {
+			if r.lo <= at && at < r.hi && r.expr == es {
+				return true
+			}
+		}
+		return false
+	}
 	for first := true; first || changed; first = false {
 		changed = false
 		mbInspectNoLit(fd.Body, func(nd ast.Node) bool {
@@ -894,6 +973,9 @@ func (ta *mbTaintAn) flows(fd *ast.FuncDecl, seed map[types.Object]string, selfR
 			case *ast.AssignStmt:
 				if len(x.Lhs) == len(x.Rhs) {
 					for i := range x.Lhs {
+						if refinedScalar(x.Pos(), x.Rhs[i]) {
+							continue
+						}
 						if w := taintOf(x.Rhs[i]); w != "" {
 							if setTaint(rootObj(x.Lhs[i]), w) {
 								changed = true
